@@ -48,6 +48,11 @@ func init() {
 					continue // quick tier: wide values per key are exercised by C02/C06; here one key per type
 				}
 				items = append(items, Item{ID: "wide:" + mc.ID(), Run: func(c *Ctx) { c17variant(c, mc, "wide", -1) }})
+				if fi := c.frameInfo(mc.Mod, mc.Typ); fi != nil && fi.Alg != "" && mc.N == 0 {
+					// checksummed frames also with the checksum registry emptied (a service that is not there must
+					// not be dereferenced)
+					items = append(items, Item{ID: "noreg:" + mc.ID(), Run: func(c *Ctx) { c17variant(c, mc, "noreg", -1) }})
+				}
 				if mc.N == 0 {
 					// the same into a partly drained buffer (consumed bytes in front, unknown spare capacity behind)
 					items = append(items, Item{ID: "drained:" + mc.ID(), Run: func(c *Ctx) { c17variant(c, mc, "drained", -1) }})
@@ -208,7 +213,24 @@ func c17variant(c *Ctx, mc MsgCase, kind string, fieldIdx int) {
 		o.Val = &StructV{F: nf}
 	}
 	drained := false
+	noreg := false
 	switch kind {
+	case "noreg":
+		noreg = true
+		fn := c.w.fn("codec.Clear")
+		if fn == nil {
+			c.Inconclusive("codec.Clear not found")
+			return
+		}
+		e.pushCall(s, fn, nil, nil)
+		fin := e.Run(s)
+		if len(fin) != 1 || fin[0].panicd != "" || fin[0].cut != "" {
+			c.Inconclusive("codec.Clear did not run to a single result")
+			return
+		}
+		s = fin[0]
+		s.frames = nil
+		h.s = s
 	case "drained":
 		drained = true
 		b := s.heap[h.bufID]
@@ -281,7 +303,11 @@ func c17variant(c *Ctx, mc MsgCase, kind string, fieldIdx int) {
 			}
 			return st
 		}
-		return []map[string]any{step("op", "newbuf", "buf", "b", "hex", ""), step("op", "newmsg", "msg", "m", "module", mc.Mod, "type", mc.Typ, "value", m), step("op", "encode", "msg", "m", "buf", "b")}
+		st := []map[string]any{step("op", "newbuf", "buf", "b", "hex", ""), step("op", "newmsg", "msg", "m", "module", mc.Mod, "type", mc.Typ, "value", m), step("op", "encode", "msg", "m", "buf", "b")}
+		if noreg {
+			st = append([]map[string]any{step("op", "registry", "ops", []map[string]any{step("op", "Clear")})}, st...)
+		}
+		return st
 	}
 	e.pushCall(s, h.enc, []Value{h.mPtr, &Ptr{Obj: h.bufID}}, nil)
 	for _, fs := range e.Run(s) {
